@@ -242,16 +242,25 @@ def stepLine (ds : DS) (line : String) : DS × String :=
           let n ← pNat
           let rows ← pMany pRow n
           pure (({ gw := gw, maskLen := mask, start := start, stop := stop, leaseTime := lt, sid := 3232238082 } : Conf), rows)) ins
-        match parsed, implOut impl with
-        | some (c, rows), some (r, o) =>
+        match parsed with
+        | none => (ds, "bad-op")
+        | some (c, rows) =>
           let st := State.init
-          let mo := obsOf c st
-          let mr : Reply := Reply.api "ok"
-          let model := String.intercalate "\t" (showReply mr ++ showObs mo)
+          -- the model's verdict on the configuration (`V4ServerConf.Validate`)
+          let model :=
+            if validate c then String.intercalate "\t" (showReply (Reply.api "ok") ++ showObs (obsOf c st))
+            else "1\t0\t0\trejected"
           let agree := model == String.intercalate "\t" impl
-          let why := specWhy c Obs.empty (.sleep 0) r o
-          ({ conf := c, tab := ⟨rows⟩, st := st, prev := o, ready := true }, verdict agree why model)
-        | _, _ => (ds, "bad-op")
+          if impl == ["1", "0", "0", "rejected"] then
+            -- the implementation refused the configuration: the block ends here
+            ({ ds with ready := false }, verdict agree none model)
+          else match implOut impl with
+            | some (r, o) =>
+              -- the implementation runs with this configuration (whatever the model thinks of it):
+              -- the history is followed and monitored
+              let why := specWhy c Obs.empty (.sleep 0) r o
+              ({ conf := c, tab := ⟨rows⟩, st := st, prev := o, ready := true }, verdict agree why model)
+            | none => (ds, "bad-op")
       else if !ds.ready then (ds, "bad-op")
       else
         match runP (pOp name) ins, implOut impl with
